@@ -1,6 +1,8 @@
 //! Consumption probe: the harness owns the `BufferQueue`, knows every
 //! character it ever pushed (in logical order, injections included) and can
 //! measure what is still unread without cloning any tendril.
+//! All offsets are BYTE offsets into the logical stream (always on character boundaries);
+//! measuring is O(number of buffers), never O(length).
 
 use std::cell::{Cell, RefCell};
 
@@ -11,8 +13,8 @@ pub struct Probe {
     pub queue: BufferQueue,
     /// logical stream so far: everything delivered, injections spliced at the
     /// consumption offset of their pause
-    pub logical: RefCell<Vec<char>>,
-    /// lb[i] = number of line breaks (LF, CR, CRLF once) in logical[..i]
+    pub logical: RefCell<String>,
+    /// lb[i] = number of line breaks (LF, CR, CRLF once) in logical[..i] (i = byte offset)
     lb: RefCell<Vec<u32>>,
     pub in_end: Cell<bool>,
     pub enabled: Cell<bool>,
@@ -28,20 +30,20 @@ impl Probe {
     pub fn new() -> Probe {
         Probe {
             queue: BufferQueue::default(),
-            logical: RefCell::new(Vec::new()),
+            logical: RefCell::new(String::new()),
             lb: RefCell::new(vec![0]),
             in_end: Cell::new(false),
             enabled: Cell::new(true),
         }
     }
 
-    /// Number of characters still in the queue.  Pops every buffer and pushes
+    /// Number of bytes still in the queue.  Pops every buffer and pushes
     /// it back in reverse: no tendril is cloned, so representation is not perturbed.
     pub fn unread(&self) -> usize {
         let mut bufs: Vec<StrTendril> = Vec::new();
         let mut n = 0usize;
         while let Some(b) = self.queue.pop_front() {
-            n += b.chars().count();
+            n += b.len32() as usize;
             bufs.push(b);
         }
         while let Some(b) = bufs.pop() {
@@ -77,12 +79,13 @@ impl Probe {
 
     fn extend_lb(&self, from: usize) {
         let logical = self.logical.borrow();
+        let bytes = logical.as_bytes();
         let mut lb = self.lb.borrow_mut();
         lb.truncate(from + 1);
-        for i in from..logical.len() {
-            let c = logical[i];
-            let prev = if i > 0 { logical[i - 1] } else { '\0' };
-            let inc = (c == '\r' || (c == '\n' && prev != '\r')) as u32;
+        for i in from..bytes.len() {
+            let c = bytes[i];
+            let prev = if i > 0 { bytes[i - 1] } else { 0 };
+            let inc = (c == b'\r' || (c == b'\n' && prev != b'\r')) as u32;
             let last = lb[i];
             lb.push(last + inc);
         }
@@ -91,7 +94,7 @@ impl Probe {
     /// Deliver a chunk at the end of the stream.
     pub fn push_back(&self, t: StrTendril) {
         let from = self.logical.borrow().len();
-        self.logical.borrow_mut().extend(t.chars());
+        self.logical.borrow_mut().push_str(&t);
         self.extend_lb(from);
         self.queue.push_back(t);
     }
@@ -99,12 +102,13 @@ impl Probe {
     /// `document.write`: text goes to the front of the unread input.  Returns
     /// the logical offset at which it was spliced.
     pub fn inject_front(&self, t: StrTendril) -> usize {
-        let at = self.consumed();
+        let mut at = self.consumed();
         {
             let mut l = self.logical.borrow_mut();
-            let tail: Vec<char> = l.split_off(at);
-            l.extend(t.chars());
-            l.extend(tail);
+            while at < l.len() && !l.is_char_boundary(at) {
+                at += 1;
+            }
+            l.insert_str(at, &t);
         }
         self.extend_lb(at);
         self.queue.push_front(t);
@@ -117,14 +121,15 @@ impl Probe {
     }
 
     pub fn logical_string(&self) -> String {
-        self.logical.borrow().iter().collect()
+        self.logical.borrow().clone()
     }
 
     pub fn char_before(&self, off: usize) -> Option<char> {
-        if off == 0 {
+        let l = self.logical.borrow();
+        if off == 0 || off > l.len() || !l.is_char_boundary(off) {
             None
         } else {
-            self.logical.borrow().get(off - 1).cloned()
+            l[..off].chars().next_back()
         }
     }
 }
